@@ -283,9 +283,15 @@ func (c *AdapterProxy) doKeepAlive() {
 		CheckPanic()
 		atomic.AddInt32(&c.servantProxy.queueLen, -1)
 	}()
-	if err := c.Send(msg.Req); err != nil {
-		c.failAdd()
-		return
+	// A one-way ping that could be queued says nothing about the servant's health: it is not booked as a
+	// sent or successful call (that would reset the consecutive-failure run and dilute the failure ratio
+	// of an endpoint whose real calls all fail). A ping that cannot even be sent is a failed request.
+	sbuf, err := c.servantProxy.proto.RequestPack(msg.Req)
+	if err == nil {
+		err = c.tarsClient.Send(sbuf)
 	}
-	c.successAdd()
+	if err != nil {
+		c.sendAdd()
+		c.failAdd()
+	}
 }
